@@ -48,7 +48,8 @@ TRUSTED = ["rustc nightly MIR construction", "mirfacts extractor", "rules/engine
 
 VP = VALUE_PRESERVING
 TRYQ = [r"ops::Try::branch$"]
-VIEW = r"ops::Deref::deref$|Option::<T>::as_ref$|Option::<T>::as_deref$"      # the same value seen through a reference (`node.edges.as_ref()` = `&node.edges`)
+# the same value seen through a reference (`node.edges.as_ref()` = `&node.edges`, `Box::as_ref(child)` = `&**child`)
+VIEW = r"ops::Deref::deref$|Option::<T>::as_ref$|Option::<T>::as_deref$|convert::AsRef::as_ref$|borrow::Borrow::borrow$"
 SEG_OK = VP + [r"string::ToString::to_string$"]          # segment -> String copies
 
 
@@ -289,6 +290,12 @@ def r2_one_endpoint(ctx):
     bad = callee_allow(hs, PLUMBING + [r"BTreeMap::<K, V, A>::get$", r"Option::<T>::map$", r"Option::<T>::unwrap_or$", r"Option::<T>::unwrap_or_default$",
                                       r"Option::<T>::map_or$", r"Option::<T>::into_iter$", r"iter::Iterator::flatten$", r"iter::IntoIterator::into_iter$",
                                       r"vec::Vec::<T, A>::as_slice$", r"Option::<T>::map_or_else$", r"Option::<T>::unwrap_or_else$"])
+    # `&[][..]`: the whole of an empty array literal is the empty default list, whatever the range (any other indexing of the handler list stays reported)
+    def _indexes_empty_array(ibb):
+        a = access_path(lr, lr.blocks[ibb]["term"]["args"][0], VP)
+        ds = lr.defs().get(a.root[1], []) if a.kind() == "local" and not a.path else []
+        return len(ds) == 1 and ds[0][1] == "assign" and not ds[0][2]["pl"]["p"] and ds[0][2]["rv"]["rv"] == "agg" and ds[0][2]["rv"].get("agg") == "array" and not ds[0][2]["rv"]["ops"]
+    bad = [b for b in bad if not (b[0].endswith("ops::Index::index") and _indexes_empty_array(b[1]))]
     okc = True
     for bb, t in lr.live_calls(r"Option::<T>::(map|map_or|map_or_else|unwrap_or_else)$"):
         if t["dest"]["l"] in hs.locals():
@@ -1225,6 +1232,7 @@ REST_LOOP = "                    let mut rest = vec![segment];\n                
 SELECT_CALL = "find_handler_matching_version(\n            node.methods.get(&methodname).map(|v| v.as_slice()).unwrap_or(&[]),\n            version,\n        ) "
 
 SPLIT_CALL = "self.lookup_segments(method, segments.into_iter(), version)"
+HANDLERS_ARG = "node.methods.get(&methodname).map(|v| v.as_slice()).unwrap_or(&[]),"
 FIND_SEL = "handlers.into_iter().find(|h| h.versions.matches(version))"
 
 SELFTEST = [
@@ -1377,6 +1385,9 @@ SELFTEST = [
     {"name": "split-lookup-other-method", "kind": "mutant", "expect": ["C01.R4"], "patch": "benign/C03-R12/patch.diff",
      "edits": [(RT, SPLIT_CALL, "self.lookup_segments(&Method::GET, segments.into_iter(), version)")],
      "why": "the method table is keyed with GET whatever the request's method"},
+    {"name": "selection-skips-first-handler-of-list", "kind": "mutant", "expect": ["C01.R2"],
+     "edits": [(RT, HANDLERS_ARG, "node.methods.get(&methodname).map_or(&[][..], |v| &v[1..]),")],
+     "why": "the default list is spelled `&[][..]` (tolerated), but the method's handler list is also indexed: its first endpoint can never be selected"},
     # ---- benign-C01-R9 (walk over a slice cursor, per-edge step record Hop{target, consumed, binding}) with a defect inside
     {"name": "slice-walk-single-consumes-two", "kind": "mutant", "expect": ["C01.R3"], "patch": "benign/C01-R9/patch.diff",
      "edits": [(RT, "                target,\n                consumed: 1,\n", "                target,\n                consumed: 2,\n")],
@@ -1419,6 +1430,9 @@ SELFTEST = [
                 "        panic!(\"URI path \\\"{}\\\": attempted to register multiple handlers for method \\\"{}\\\" with overlapping version ranges\", path, methodname);\n    }\n}\n\n"
                 "/// Insert a variable into the set after checking for duplicates.")],
      "why": "behaviour-preserving: the conflict loop extracted into a private helper that takes the list as a slice and uses guard clauses"},
+    {"name": "benign-default-list-as-full-range-of-empty-array", "kind": "benign",
+     "edits": [(RT, HANDLERS_ARG, "node.methods.get(&methodname).map_or(&[][..], Vec::as_slice),")],
+     "why": "behaviour-preserving: `.map(|v| v.as_slice()).unwrap_or(&[])` written as `.map_or(&[][..], Vec::as_slice)`"},
     {"name": "benign-edges-as-ref", "kind": "benign",
      "edits": [(RT, "            node = match &node.edges {\n                None => None,", "            node = match node.edges.as_ref() {\n                None => None,")],
      "why": "behaviour-preserving: `&node.edges` matched as `node.edges.as_ref()`"},
